@@ -28,7 +28,7 @@ RULE = (
     "(document, modes, generated case) triples"
 )
 BOUNDS = {
-    "quick": {"d": 2, "max_exec_per_tree": 700, "d_mixed_mode_recheck": 1, "liveness_max_exec": 2600, "chars": ["a", "0"]},
+    "quick": {"d": 2, "max_exec_per_tree": 1300, "d_mixed_mode_recheck": 1, "liveness_max_exec": 2600, "chars": ["a", "0"]},
     "thorough": {"d": 3, "max_exec_per_tree": 12000, "d_mixed_mode_recheck": 2, "liveness_max_exec": 40000,
                  "chars": ["a", "b", "0", "1", "\x00", "é", " "]},
 }
@@ -81,19 +81,22 @@ def _scalar_schemas(spec: str, tier: str) -> list[tuple[str, dict]]:
         ("string", {"type": "string", "format": "date"}),
     ]
     out += [("misc", s) for s in ss.misc_schemas(spec)]
-    if tier == "thorough":
-        seen = {digest(s) for _, s in out}
-        for fam, gen in (("string", ss.string_schemas(2)), ("numeric", ss.numeric_schemas(2, spec))):
-            for s in gen:
-                if digest(s) not in seen:
-                    seen.add(digest(s))
-                    out.append((fam, s))
+    return out
+
+
+def _extra_scalar_schemas(spec: str) -> list[tuple[str, dict]]:
+    """Thorough tier: the K<=2 keyword grammar of C01 (run with the quick deviation bound, query and body only)."""
+    seen = {digest(s) for _, s in _scalar_schemas(spec, "thorough")}
+    out = []
+    for fam, gen in (("string", ss.string_schemas(2)), ("numeric", ss.numeric_schemas(2, spec))):
+        for s in gen:
+            if digest(s) not in seen:
+                seen.add(digest(s))
+                out.append((fam, s))
     return out
 
 
 def _array_schemas(tier: str) -> list[tuple[str, dict]]:
-    if tier == "thorough":
-        return [("array", s) for s in ss.array_schemas(2)]
     return [
         ("array", {"type": "array", "items": {"type": "integer"}}),
         ("array", {"type": "array", "items": {"type": "string"}}),
@@ -120,90 +123,98 @@ def _item(spec: str, params: list[dict], body: dict | None, family: str, tier: s
 
 
 def items(tier: str, seed: int) -> list[dict]:
+    quick = tier == "quick"
     out: list[dict] = []
+    int_min = {"type": "integer", "minimum": 1}
+    # schemas that also get an optional (required: false) variant in the quick tier
+    optional_too = {digest(s) for s in ({"type": "integer"}, int_min, {"type": "string", "maxLength": 1},
+                                        {"type": "array", "items": {"type": "integer"}})}
     for spec in ("3.0", "2.0", "3.1"):
+        full = spec == "3.0" or not quick
+        both = [N, PN] if full else [N]
         scalars = _scalar_schemas(spec, tier)
-        if spec != "3.0" and tier == "quick":
+        if not full:
             # other spec versions: one schema per family and the version-specific keywords
-            keep = {digest(s) for s in ({"type": "integer", "minimum": 1}, {"type": "string", "maxLength": 1}, {"type": "boolean"})}
+            keep = {digest(s) for s in (int_min, {"type": "string", "maxLength": 1}, {"type": "boolean"})}
             scalars = [(f, s) for f, s in scalars if digest(s) in keep or "exclusiveMaximum" in s or "nullable" in s or "x-nullable" in s
                        or isinstance(s.get("type"), list)]
-        arrays = _array_schemas(tier) if spec == "3.0" or tier == "thorough" else _array_schemas(tier)[:1]
+        arrays = _array_schemas(tier)
         combos = [("combinator", s) for s in ss.combinator_schemas()]
         if spec == "2.0":
             combos = [(f, s) for f, s in combos if not ({"anyOf", "oneOf", "not"} & set(s))]
-        elif spec == "3.1" and tier == "quick":
-            combos = combos[:1]
         for loc in ("query", "path", "header", "cookie"):
             if spec == "2.0" and loc == "cookie":
                 continue
-            fams = scalars + arrays
-            if spec != "2.0":
-                fams = fams + combos
-            for fam, schema in fams:
+            loc_arrays = arrays if not quick else (arrays[:2] + (arrays[4:] if loc == "query" else []) if full else arrays[:1])
+            loc_combos = combos if not quick else ([c for n, c in enumerate(combos) if n in (0, 3, 4, 6)] if full else combos[:1])
+            for fam, schema in scalars + loc_arrays + ([] if spec == "2.0" else loc_combos):
                 if spec == "2.0" and schema.get("type") in (None, "object"):
                     continue
                 if loc == "cookie" and fam == "array":
                     continue
                 reqs = [True]
-                if loc == "query" or (loc == "header" and fam == "numeric" and spec == "3.0"):
+                if loc == "query" and (not quick or (full and digest(schema) in optional_too)):
                     reqs = [True, False]
-                if loc == "query" and spec != "3.0" and tier == "quick":
-                    reqs = [True]
+                if loc == "header" and (schema == {"type": "integer"} or not quick):
+                    reqs = [True, False]
                 for required in reqs:
-                    out.append(_item(spec, [_param(loc, schema, required)], None, fam, tier))
+                    out.append(_item(spec, [_param(loc, schema, required)], None, fam, tier, modes=both))
             # un-negatable parameter shapes
             for required in (True, False):
                 if loc == "path" and not required:
                     continue
-                out.append(_item(spec, [_param(loc, {"type": "string"}, required)], None, "unnegatable", tier, shape="plain_string"))
+                out.append(_item(spec, [_param(loc, {"type": "string"}, required)], None, "unnegatable", tier, shape="plain_string", modes=both))
                 if spec != "2.0":
-                    out.append(_item(spec, [_param(loc, {}, required)], None, "unnegatable", tier, shape="empty_schema"))
+                    out.append(_item(spec, [_param(loc, {}, required)], None, "unnegatable", tier, shape="empty_schema", modes=both))
         # bodies
-        bodies = scalars + arrays + [("object", s) for s in ss.object_schemas()] + combos + [("string", {"type": "string"})]
-        if spec != "3.0" and tier == "quick":
-            bodies = scalars + [("object", s) for s in list(ss.object_schemas())[:2]]
+        objects = [("object", s) for s in ss.object_schemas()]
+        if quick:
+            objects = [o for n, o in enumerate(objects) if n in (1, 3, 5, 6, 8, 9, 10, 11)] if full else objects[1:2]
+        bodies = scalars + (arrays if full else arrays[:1]) + objects + (combos if full else combos[:1]) + [("string", {"type": "string"})]
         for n, (fam, schema) in enumerate(bodies):
-            reqs = [True, False] if (spec == "3.0" and (n % 4 == 0 or tier == "thorough")) else [True]
+            reqs = [True, False] if (full and (n % 5 == 0 or not quick)) else [True]
             for required in reqs:
-                out.append(_item(spec, [], {"required": required, "schema": schema}, fam, tier))
+                out.append(_item(spec, [], {"required": required, "schema": schema}, fam, tier, modes=both))
         for schema in UNNEGATABLE_BODY:
             for required in (True, False):
-                if spec != "3.0" and schema:
+                if not full and schema:
                     continue
-                out.append(_item(spec, [], {"required": required, "schema": schema}, "unnegatable", tier, shape="accept_all_body"))
+                out.append(_item(spec, [], {"required": required, "schema": schema}, "unnegatable", tier, shape="accept_all_body", modes=both))
         # no input at all
-        out.append(_item(spec, [], None, "unnegatable", tier, shape="no_inputs"))
+        out.append(_item(spec, [], None, "unnegatable", tier, shape="no_inputs", modes=both))
+        if not quick:
+            for fam, schema in _extra_scalar_schemas(spec):
+                for params, body in (([_param("query", schema, True)], None), ([], {"required": True, "schema": schema})):
+                    extra = _item(spec, params, body, fam, tier, modes=[N], shape="k2_grammar")
+                    extra["d"] = BOUNDS["quick"]["d"]
+                    out.append(extra)
         # $ref variants
         for depth in (1, 2):
-            out.append(_item(spec, [], {"required": True, "schema": {"type": "integer", "minimum": 1}}, "numeric", tier, ref=depth, modes=[N]))
+            out.append(_item(spec, [], {"required": True, "schema": int_min}, "numeric", tier, ref=depth, modes=[N]))
             if spec != "2.0":
-                out.append(_item(spec, [_param("query", {"type": "integer", "minimum": 1}, True)], None, "numeric", tier, ref=depth, modes=[N]))
-        # an un-negatable input next to a negatable one
-        neg_int = {"type": "integer", "minimum": 1}
-        mixes: list[tuple[list[dict], dict | None]] = [
-            ([_param("path", {"type": "string"}, True), _param("query", neg_int, True, "q")], None),
-            ([_param("path", {"type": "string"}, True)], {"required": True, "schema": neg_int}),
-            ([_param("path", {"type": "string", "minLength": 1}, True), _param("query", neg_int, True, "q")], None),
-            ([_param("header", {"type": "string"}, True), _param("query", neg_int, True, "q")], None),
-            ([_param("cookie", {"type": "string"}, True), _param("query", neg_int, True, "q")], None),
-            ([_param("header", {"type": "string"}, True)], {"required": True, "schema": neg_int}),
-            ([_param("query", {"type": "string"}, False, "q")], {"required": True, "schema": neg_int}),
-            ([_param("path", {"type": "integer"}, True), _param("query", {"type": "string"}, False, "q")], None),
-            ([_param("path", {"type": "string"}, True), _param("path", {"type": "integer"}, True, "r")], None),
-            ([_param("query", neg_int, True, "q")], {"required": False, "schema": {}}),
-            ([_param("header", {"type": "string"}, False), _param("header", {"type": "integer"}, True, "X-Q")], None),
+                out.append(_item(spec, [_param("query", int_min, True)], None, "numeric", tier, ref=depth, modes=[N]))
+        # an un-negatable input next to a negatable one; the two modes differ only in reject vs SkipTest, so both are run on some
+        mixes: list[tuple[list[dict], dict | None, list[str]]] = [
+            ([_param("path", {"type": "string"}, True), _param("query", int_min, True, "q")], None, both),
+            ([_param("header", {"type": "string"}, True), _param("query", int_min, True, "q")], None, both),
+            ([_param("path", {"type": "string"}, True)], {"required": True, "schema": int_min}, [N]),
+            ([_param("path", {"type": "string", "minLength": 1}, True), _param("query", int_min, True, "q")], None, [N]),
+            ([_param("cookie", {"type": "string"}, True), _param("query", int_min, True, "q")], None, [N]),
+            ([_param("header", {"type": "string"}, True)], {"required": True, "schema": int_min}, [N]),
+            ([_param("query", {"type": "string"}, False, "q")], {"required": True, "schema": int_min}, [N]),
+            ([_param("path", {"type": "integer"}, True), _param("query", {"type": "string"}, False, "q")], None, [N]),
+            ([_param("path", {"type": "string"}, True), _param("path", {"type": "integer"}, True, "r")], None, [N]),
+            ([_param("query", int_min, True, "q")], {"required": False, "schema": {}}, [N]),
+            ([_param("header", {"type": "string"}, False), _param("header", {"type": "integer"}, True, "X-Q")], None, [N]),
+            ([_param("path", {}, True), _param("query", int_min, True, "q")], None, [N]),
+            ([_param("path", {"type": "string"}, True), _param("cookie", int_min, True, "c")], None, [N]),
         ]
-        if spec != "2.0":
-            mixes.append(([_param("path", {}, True), _param("query", neg_int, True, "q")], None))
-            mixes.append(([_param("path", {"type": "string"}, True), _param("cookie", neg_int, True, "c")], None))
-        else:
-            mixes = [m for m in mixes if not any(p["in"] == "cookie" for p in m[0])]
-        if spec == "3.1" and tier == "quick":
-            mixes = mixes[:3]
-        for n, (params, body) in enumerate(mixes):
-            # the two modes differ only in reject vs SkipTest: both are run on the first two mixes, negative-only on the rest
-            out.append(_item(spec, params, body, "mixed", tier, shape="mixed", modes=[N, PN] if n < 2 or tier == "thorough" else [N]))
+        if spec == "2.0":
+            mixes = [m for m in mixes if not any(p["in"] == "cookie" or p["schema"] == {} for p in m[0])]
+        if quick:
+            mixes = mixes[:-1] if full else mixes[:2]
+        for params, body, modes in mixes:
+            out.append(_item(spec, params, body, "mixed", tier, shape="mixed", modes=modes if quick else [N, PN]))
     return out
 
 
@@ -283,6 +294,7 @@ def location_verdicts(doc: dict, expect: dict, loc: str, container: dict, spec: 
     declared = [p for p in expect["params"] if p["in"] == loc]
     raw: list[tuple[str, bool | None]] = []
     wire: list[tuple[str, bool | None]] = []
+    via: set[str] = set()
     names = set()
     for p in declared:
         present, value = _lookup(container, p["name"], loc)
@@ -292,13 +304,16 @@ def location_verdicts(doc: dict, expect: dict, loc: str, container: dict, spec: 
                 raw.append(("missing_required", False))
                 wire.append(("missing_required", False))
             continue
-        raw.append(("value", verdict(doc, p["schema"], value, spec=spec)))
+        r = verdict(doc, p["schema"], value, spec=spec)
+        raw.append(("value", r))
         w = wire_value_verdict(doc, p["schema"], value, loc, spec)
         if w == ABSENT:
             if p["required"]:
                 wire.append(("missing_required", False))
             continue
         wire.append(("value", w))
+        if w is True:
+            via.add(_why_conforms(r, value))
     for k in container:
         key = k.lower() if (loc == "header" and isinstance(k, str)) else k
         if key not in names:
@@ -308,7 +323,27 @@ def location_verdicts(doc: dict, expect: dict, loc: str, container: dict, spec: 
         "raw": _combine(raw), "wire": _combine(wire),
         "violating_parts": sorted({r for r, v in wire if v is False}),
         "raw_violating_parts": sorted({r for r, v in raw if v is False}),
+        "via": sorted(via - {"conforms_as_generated"}) or sorted(via),
     }
+
+
+SERIALISATION_REASONS = {"string_read_as_typed_value", "non_string_sent_as_string", "one_item_list", "jsonified_literal"}
+
+
+def _why_conforms(raw: bool | None, value: Any) -> str:
+    """Why a value that is sent conforms on the wire (facts for the violation signature)."""
+    if raw is None:
+        return "raw_undecided"
+    if raw is False:
+        # the Python value violates the schema, what the server reads from the wire does not
+        if isinstance(value, (list, tuple)):
+            return "one_item_list"
+        if isinstance(value, str):
+            return "string_read_as_typed_value"  # e.g. "0" for an integer
+        return "non_string_sent_as_string"  # e.g. 0.0 for a (nullable) string
+    if isinstance(value, str) and value in ("true", "false", "null"):
+        return "jsonified_literal"  # True/False/None rewritten after the implementation's own validity filter
+    return "conforms_as_generated"
 
 
 def classify_operation(doc: dict, expect: dict, spec: str) -> tuple[str, dict]:
@@ -465,25 +500,25 @@ def check_item(item: dict, tier: str) -> Result:
         if recheck:
             res.count("mixed_mode_rechecks")
             if errors:
-                acc.violation({"kind": "generation_error", "error": type(errors[0]).__name__, "modes": mode_key,
-                               "operation_class": op_class, "outcome": "error"},
+                acc.violation({"kind": "generation_error", "error": type(errors[0]).__name__, "error_text": str(errors[0])[:80], "modes": mode_key},
                               {"inputs": _inputs(expect), "spec": spec, "error": repr(errors[0])[:300]})
             continue
         # liveness pass: only needed when no case was seen; whole tree, minimal alphabet
         live: Stats | None = None
-        if tally["valid"] == 0:
+        if tally["valid"] == 0 and op_class != "undecided":
             live = run(Alphabet(minimal=True), None, b["liveness_max_exec"], "liveness")
             res.count("liveness_trees")
             res.count("liveness_trees_exhausted" if live.exhausted else "liveness_trees_not_exhausted")
         outcome = "case" if tally["valid"] else ("skipped" if tally["skipped"] else ("error" if tally["error"] else "all_rejected"))
         res.outcomes.add(f"operation:{op_class}:{mode_key}:{outcome}")
         op_sig = {"modes": mode_key, "operation_class": op_class, "outcome": outcome,
-                  "unnegatable_inputs": facts["unnegatable_inputs"], "negatable_inputs": facts["negatable_inputs"]}
+                  "unnegatable_inputs": facts["unnegatable_inputs"], "negatable_inputs": facts["negatable_inputs"],
+                  "unnegatable_locations": sorted({x.split(":")[0] for x in facts["unnegatable_inputs"]})}
         op_detail = {"inputs": _inputs(expect), "spec": spec, "facts": facts, "tally": dict(tally),
                      "liveness_exhausted": None if live is None else live.exhausted,
                      "liveness_executions": None if live is None else live.executions}
         if errors:
-            acc.violation({**op_sig, "kind": "generation_error", "error": type(errors[0]).__name__},
+            acc.violation({"kind": "generation_error", "error": type(errors[0]).__name__, "error_text": str(errors[0])[:80], "modes": mode_key},
                           {**op_detail, "error": repr(errors[0])[:300]})
         if op_class == "must_produce":
             if tally["skipped"]:
@@ -546,14 +581,15 @@ def judge(res: Result, acc: _Item, ctx: dict, case: Any, choices: list[int], whi
             present = case.body is not NOT_SET
             if present and declared:
                 v = verdict(doc, expect["body"]["schema"], case.body, spec=spec)
-                lv = {"raw": v, "wire": v, "violating_parts": ["value"] if v is False else [], "raw_violating_parts": ["value"] if v is False else []}
+                lv = {"raw": v, "wire": v, "violating_parts": ["value"] if v is False else [], "raw_violating_parts": ["value"] if v is False else [],
+                      "via": ["conforms_as_generated"] if v is True else []}
             elif present:
-                lv = {"raw": False, "wire": False, "violating_parts": ["undeclared_body"], "raw_violating_parts": ["undeclared_body"]}
+                lv = {"raw": False, "wire": False, "violating_parts": ["undeclared_body"], "raw_violating_parts": ["undeclared_body"], "via": []}
             else:
                 # an absent body conforms unless it is required
                 required = bool(declared and expect["body"]["required"])
                 lv = {"raw": not required, "wire": not required, "violating_parts": ["missing_required"] if required else [],
-                      "raw_violating_parts": ["missing_required"] if required else []}
+                      "raw_violating_parts": ["missing_required"] if required else [], "via": []}
         else:
             container = getattr(case, component)
             declared = any(p["in"] == loc for p in expect["params"])
@@ -569,8 +605,11 @@ def judge(res: Result, acc: _Item, ctx: dict, case: Any, choices: list[int], whi
             res.count("negative_components_judged")
             if lv["wire"] is True:
                 judged_negative = True
-                acc.violation({**sig, "kind": "negative_component_conforms", "raw_verdict_violates": lv["raw"] is False,
-                               "raw_violating_parts": lv["raw_violating_parts"]}, detail | {"verdicts": dict(verdicts)})
+                acc.violation({**sig, "kind": "negative_component_conforms", "via": "+".join(lv["via"]) or "nothing_sent",
+                               "explained_by_serialisation": bool(lv["via"]) and set(lv["via"]) <= SERIALISATION_REASONS},
+                              detail | {"verdicts": dict(verdicts)})
+                if lv["raw"] is False:
+                    res.count("raw_violates_wire_conforms")
             elif lv["wire"] is False:
                 judged_negative = True
                 really_negative = True
